@@ -34,6 +34,7 @@ abbrev Str := List Char
 
 inductive Code where
   | unsupported | invalidSpec | invalidDelimiter | repeatedFlag | failure
+  | notInteger | illegalArguments          -- the Integer constructor
   deriving DecidableEq, Repr, Inhabited
 
 /-- Go runtime / fmt faults that the code could exhibit on data-dependent input -/
@@ -773,5 +774,69 @@ def formatDirective (io : FloatIO) (directive : Str) (v : Val) : Res :=
   match newFormat directive with
   | .error c => .reported c
   | .ok f => format io [(.any, .mk f none)] v
+
+/-! ### `new(Integer, text, radix)` — types/integertype.go: the `Convertible` pattern of the constructor's signature and
+    `intFromConvertible` (strconv.ParseInt with the given radix) -/
+
+def isReSpace (c : Char) : Bool := c = ' ' || c = '\t' || c = '\n' || c = '\x0c' || c = '\r'
+def isHexDigit (c : Char) : Bool := isDigit c || ('a' ≤ c && c ≤ 'f') || ('A' ≤ c && c ≤ 'F')
+def isOctDigit (c : Char) : Bool := '0' ≤ c && c ≤ '7'
+def isBinDigit (c : Char) : Bool := c = '0' || c = '1'
+
+/-- `IntegerPattern`: `\A[+-]?\s*(?:0|[1-9]\d*|0[xX][0-9A-Fa-f]+|0[0-7]+|0[bB][01]+)\z` -/
+def matchIntegerPattern (s : Str) : Bool :=
+  let s := match s with
+    | '+' :: r => r
+    | '-' :: r => r
+    | _ => s
+  match s.dropWhile isReSpace with
+  | ['0'] => true
+  | '0' :: c :: r =>
+    if c = 'x' || c = 'X' then !r.isEmpty && r.all isHexDigit
+    else if c = 'b' || c = 'B' then !r.isEmpty && r.all isBinDigit
+    else isOctDigit c && r.all isOctDigit
+  | c :: r => ('1' ≤ c && c ≤ '9') && r.all isDigit
+  | [] => false
+
+/-- value of a digit for strconv.ParseUint: 0-9, a-z, A-Z -/
+def parseDigit (c : Char) : Option Nat :=
+  if '0' ≤ c ∧ c ≤ '9' then some (c.toNat - '0'.toNat)
+  else if 'a' ≤ c ∧ c ≤ 'z' then some (c.toNat - 'a'.toNat + 10)
+  else if 'A' ≤ c ∧ c ≤ 'Z' then some (c.toNat - 'A'.toNat + 10)
+  else none
+
+def parseDigits (base : Nat) : Str → Nat → Option Nat
+  | [], acc => some acc
+  | c :: cs, acc =>
+    match parseDigit c with
+    | some d => if d < base then parseDigits base cs (acc * base + d) else none
+    | none => none
+
+/-- `strconv.ParseInt(s, base, 64)` for an explicit base: sign, digits below the base, no prefix, the int64 range -/
+def goParseInt (s : Str) (base : Nat) : Option Int :=
+  let neg := s.head? = some '-'
+  let ds := match s with
+    | '+' :: r => r
+    | '-' :: r => r
+    | _ => s
+  if ds.isEmpty then none
+  else match parseDigits base ds 0 with
+    | some n => if neg then (if n ≤ 2^63 then some (-(n : Int)) else none) else (if n < 2^63 then some (n : Int) else none)
+    | none => none
+
+inductive IntRes where
+  | int (i : Int)
+  | reported (c : Code)
+  deriving DecidableEq, Repr
+
+/-- `px.New(c, Integer, text, radix)`: the signature check (Convertible = Pattern[IntegerPattern]) then intFromConvertible -/
+def newInteger (s : Str) (radix : Nat) : IntRes :=
+  if !matchIntegerPattern s then .reported .illegalArguments
+  else match goParseInt s radix with
+    | some i => .int i
+    | none => .reported .notInteger
+
+def letterRadix (c : Char) : Nat :=
+  if c = 'x' || c = 'X' then 16 else if c = 'o' then 8 else if c = 'b' || c = 'B' then 2 else 10
 
 end Pcore.Format
